@@ -3,6 +3,7 @@ import GqlVerif.Proofs.ComposedC14
 import GqlVerif.Proofs.SerdeFuelWitness
 import GqlVerif.Proofs.C14GeneratedWitness
 import GqlVerif.Proofs.C14GeneratedFragWitness
+import GqlVerif.Proofs.C01DenyFragWitness
 open GqlVerif.C14
 #print axioms dep_table
 #print axioms never_omitted_unless_denied
@@ -64,3 +65,6 @@ open GqlVerif.C14
 #print axioms GqlVerif.C14G.Witness.sibling_key_matters
 #print axioms GqlVerif.C14G.Witness.dead_struct_emitted
 #print axioms GqlVerif.C14G.FragWitness.f_instance
+-- with the fuel condition discharged for the fragment class (Proofs/C01DenyFrag.lean)
+#print axioms GqlVerif.C01.Deny.denied_field_payload_same_frag'
+#print axioms GqlVerif.C01.Deny.fragOpD_envOK
